@@ -557,8 +557,8 @@ pub fn run(run: &mut Run) {
             },
             test_ls_ignore,
         );
-        run.require_class("language_server_ignore", "identifier_added_after_ignore", (n / 6) as u64);
-        run.require_class("language_server_ignore", "text_prepended_after_ignore", (n / 6) as u64);
+        run.require_class("language_server_ignore", "identifier_added_after_ignore", (n / 15) as u64);
+        run.require_class("language_server_ignore", "text_prepended_after_ignore", (n / 10) as u64);
         run.max_shrink_iters = shrink;
         run.threads = threads;
     }
